@@ -105,3 +105,150 @@ Example C12_witness : depleted [(0%Z, 4%Q, 8%Z, 8%Q); (3%Z, 0%Q, 8%Z, 8%Q)].
 Proof.
   constructor; [left; apply Z.le_refl | constructor; [right; apply Qle_refl | constructor]].
 Qed.
+
+(* ------------------------------------------------------------------------------------------ *)
+(* Run level: the priority policy in the closed loop of [sim_run] (Proofs/PriorityRunFacts.v).  *)
+(* ------------------------------------------------------------------------------------------ *)
+From Eudoxia Require Import Model.Dag Model.Simulator Proofs.SafetyFacts Proofs.PriorityRunFacts.
+
+(* every command batch the priority policy issues during a run is accepted by the executor, and the
+   scheduler's own assertions never fire: whatever stops a run was raised inside a container tick or by the
+   lifecycle state machine ([inner_err]: EDep / ETransition / EStopIter / EOther), never EBadPool,
+   EOversellCpu, EOversellRam, EBadSuspend, EOpCount, EBadAssignArgs or ESchedAssert. Both container modes. *)
+Theorem C12_run_commands_admissible : forall C l np cpu ram arrivals sf logs er,
+  cf_static C = mk_static l -> dags_wf l -> (0 <= cpu)%Z -> (0 <= ram)%Q ->
+  sim_run C APriority 0%Z (init_sim C np cpu ram) arrivals = (sf, logs, Some er) ->
+  inner_err er /\
+  er <> EBadPool /\ er <> EOversellCpu /\ er <> EOversellRam /\ er <> EBadSuspend /\ er <> EOpCount /\
+  er <> EBadAssignArgs /\ er <> ESchedAssert.
+Proof. exact priority_run_commands_admissible. Qed.
+Print Assumptions C12_run_commands_admissible.
+
+(* the invariant behind it, in the final state of any run (normal end or not): the scheduler's bookkeeping
+   matches the executor's state. Pool ids are 0..np-1; container ids are unique over all pools and lists;
+   every container has its unfinished operators ahead of it, a positive allocation and an operator list fit
+   for the container mode; free amounts are non-negative; every suspended container that has not been
+   re-queued has a PENDING operator; queued and noted jobs are well-formed; results carry positive requests *)
+Theorem C12_run_invariant : forall C l np cpu ram arrivals sf logs oe,
+  cf_static C = mk_static l -> dags_wf l -> (0 <= cpu)%Z -> (0 <= ram)%Q ->
+  sim_run C APriority 0%Z (init_sim C np cpu ram) arrivals = (sf, logs, oe) ->
+  pr_inv C np sf.
+Proof. exact priority_run_invariant_mk. Qed.
+Print Assumptions C12_run_invariant.
+
+(* run-level queue invariants, both modes: class queues hold jobs of their class; queued jobs and jobs
+   noted for suspending containers have >= 1 known operators (exactly 1 in single-operator mode) and a
+   positive remembered request; suspended work not yet re-queued is still PENDING, so it is offered again
+   (C12_resume_offered) -- the only way queued work leaves without a container is the documented drop of a
+   failed retry (C12_retry_dropped) *)
+Theorem C12_run_queues : forall C l np cpu ram arrivals sf logs oe,
+  cf_static C = mk_static l -> dags_wf l -> (0 <= cpu)%Z -> (0 <= ram)%Q ->
+  sim_run C APriority 0%Z (init_sim C np cpu ram) arrivals = (sf, logs, oe) ->
+  class_ok (sm_sched sf) /\
+  (forall p j, In j (queue_of (sm_sched sf) p) -> jgood C j) /\
+  (forall cid j, In (cid, j) (ss_suspending (sm_sched sf)) -> jgood C j) /\
+  (forall p c, In p (e_pools (sm_exec sf)) -> In c (p_suspended p) ->
+     ~ In (c_id c) (ss_requeued (sm_sched sf)) ->
+     exists o, In o (c_ops c) /\ st_of (e_world (sm_exec sf)) o = Pending).
+Proof. exact priority_run_queues. Qed.
+Print Assumptions C12_run_queues.
+
+(* single-operator mode: the run reaches its last tick, no operator is ever queued twice (over all three
+   queues), every queued job is one PENDING or FAILED operator whose parents are complete and which no
+   live container owns, and nothing is ever suspending or suspended *)
+Theorem C12_single_queues : forall C l np cpu ram arrivals,
+  cf_static C = mk_static l -> dags_wf l ->
+  (forall op c, cf_script C op c <> []) -> cf_multi C = false ->
+  (0 <= cpu)%Z -> (0 <= ram)%Q -> NoDup (concat arrivals) ->
+  exists sf logs,
+    sim_run C APriority 0%Z (init_sim C np cpu ram) arrivals = (sf, logs, None) /\
+    NoDup (queued_ops (sm_sched sf)) /\
+    (forall q j, In j (queue_of (sm_sched sf) q) ->
+       exists o, j_ops j = [o] /\
+         (st_of (e_world (sm_exec sf)) o = Pending \/ st_of (e_world (sm_exec sf)) o = Failed) /\
+         parents_complete (cf_static C) (e_world (sm_exec sf)) o = true /\
+         ~ In o (sown (sm_exec sf))) /\
+    (forall p, In p (e_pools (sm_exec sf)) -> p_suspending p = [] /\ p_suspended p = []).
+Proof. exact priority_single_queues. Qed.
+Print Assumptions C12_single_queues.
+
+(* non-vacuity: a run in which a batch container is preempted for a query job (tick 2), the query job is
+   served (tick 3) and the preempted work is re-queued and served again (tick 4); and a run that stops *)
+Example C12_run_witness :
+  RunExamples.show (sim_run (RunExamples.exC true) APriority 0%Z
+                            (init_sim (RunExamples.exC true) 1 2%Z 2%Q) RunExamples.arr) =
+  ([([], [(Batch, [0; 1]); (Batch, [2; 3])], []);
+    ([], [], []);
+    ([0], [], []);
+    ([], [(Query, [4])], [(1, false)]);
+    ([], [(Batch, [1])], [(2, false)]);
+    ([], [], [(3, false)]);
+    ([], [], []); ([], [], [])], None, 1%Z, [0]).
+Proof. exact RunExamples.ex_run_preempts. Qed.
+
+Example C12_run_stops_witness :
+  exists sf logs, sim_run (RunExamples.exC true) APriority 0%Z
+                          (init_sim (RunExamples.exC true) 1 2%Z 2%Q) [[0]; [0]]
+                  = (sf, logs, Some EOther) /\ inner_err EOther.
+Proof. exact RunExamples.ex_run_stops. Qed.
+
+(* single-operator mode, nothing ready is lost: in the final state of every run, every PENDING operator of an
+   arrived pipeline whose parents are all complete is in one of the queues, or its pipeline has a result of
+   the tick just executed (then the next round examines the pipeline and files the operator). With
+   C12_work_conserving: ready PENDING work waits only while every pool is depleted. FAILED operators are
+   deliberately not covered: see C12_retry_dropped. *)
+Theorem C12_single_no_loss : forall C l np cpu ram arrivals,
+  cf_static C = mk_static l -> dags_wf l ->
+  (forall op c, cf_script C op c <> []) -> cf_multi C = false ->
+  (0 <= cpu)%Z -> (0 <= ram)%Q -> NoDup (concat arrivals) ->
+  exists sf logs,
+    sim_run C APriority 0%Z (init_sim C np cpu ram) arrivals = (sf, logs, None) /\
+    forall k o, In k (concat arrivals) -> In o (pd_order (pipe_of (cf_static C) k)) ->
+      st_of (e_world (sm_exec sf)) o = Pending ->
+      parents_complete (cf_static C) (e_world (sm_exec sf)) o = true ->
+      In o (queued_ops (sm_sched sf)) \/
+      exists r o', In r (sm_results sf) /\ In o' (r_ops r) /\ op_pipe (cf_static C) o' = k.
+Proof. exact priority_single_no_loss. Qed.
+Print Assumptions C12_single_no_loss.
+
+Example C12_no_loss_witness :
+  (let '(sf, _, _) := sim_run (RunExamples.exC false) APriority 0%Z
+                              (init_sim (RunExamples.exC false) 1 1%Z 1%Q) [[0; 1]] in
+   (queued_ops (sm_sched sf), map j_ops (ss_b (sm_sched sf)), st_of (e_world (sm_exec sf)) 2,
+    parents_complete RunExamples.exSt (e_world (sm_exec sf)) 2)) = ([2], [[2]], Pending, true).
+Proof. exact RunExamples.ex_waiting_is_queued. Qed.
+
+(* in every tick of every run (both modes): no container is named by two suspension commands -- the side
+   condition of C12_suspend_rules (container ids unique over all pools) holds in every reachable state -- and
+   every assignment has an operator list fit for the container mode (>= 1 operators, exactly 1 in
+   single-operator mode), made of known operators *)
+Theorem C12_run_commands : forall C l np cpu ram arrivals sf logs oe,
+  cf_static C = mk_static l -> dags_wf l -> (0 <= cpu)%Z -> (0 <= ram)%Q ->
+  sim_run C APriority 0%Z (init_sim C np cpu ram) arrivals = (sf, logs, oe) ->
+  Forall (fun lg => NoDup (map su_cid (tl_susp lg)) /\
+                    forall a, In a (tl_asgs lg) -> opsP C (a_ops a) /\ ops_in_range (cf_static C) (a_ops a))
+         logs.
+Proof. exact priority_run_commands. Qed.
+Print Assumptions C12_run_commands.
+
+(* "never lost" cannot be extended to FAILED operators (the run-level face of C12_retry_dropped): in this
+   run of a valid single-operator configuration (one pool of 4 CPUs / 4 GB; three long batch operators hold
+   1 CPU / 1 GB each; the fourth pipeline needs 3 GB) operator 3 is OOM-killed in tick 1, its doubled retry
+   (2 CPUs / 2 GB) does not fit into the free 1 CPU / 1 GB in tick 2 and is dropped without being counted;
+   the run reaches its last tick with operator 3 FAILED, parents complete, in no queue, in no container, its
+   pipeline outstanding and in no result, while 1 CPU / 1 GB are still free *)
+Example C12_never_lost_failed_refuted :
+  (let '(sf, logs, e) := sim_run RunExamples.lostC APriority 0%Z
+                                 (init_sim RunExamples.lostC 1 4%Z 4%Q) RunExamples.lostArr in
+   (e, st_of (e_world (sm_exec sf)) 3,
+    parents_complete (cf_static RunExamples.lostC) (e_world (sm_exec sf)) 3,
+    queued_ops (sm_sched sf),
+    map (fun p => (p_avail_cpu p, Qred (p_avail_ram p), map c_id (p_active p), p_suspending p, p_suspended p))
+        (e_pools (sm_exec sf)),
+    sm_results sf, sm_outstanding sf, ss_oom (sm_sched sf),
+    map (fun l => map (fun a => (a_ops a, a_cpu a, Qred (a_ram a))) (tl_asgs l)) logs,
+    map (fun l => map (fun r => (r_ops r, r_err r)) (tl_results l)) logs))
+  = (None, Failed, true, [], [(1%Z, 1%Q, [0; 1; 2], [], [])], [], [0; 1; 2; 3], 0%Z,
+     [[([0], 1%Z, 1%Q); ([1], 1%Z, 1%Q); ([2], 1%Z, 1%Q)]; [([3], 1%Z, 1%Q)]; []; []; []; []],
+     [[]; [([3], true)]; []; []; []; []]).
+Proof. exact RunExamples.ex_failed_work_lost. Qed.
